@@ -8,8 +8,8 @@
   `KV().GQA()`, `envconfig.GpuOverhead`), and mirrors everything the estimator does with them.
 
   All Go arithmetic on these quantities is `uint64`: every `+`/`*` is mirrored by `wr (…)`,
-  reduction modulo 2^64, in the order Go evaluates it (left-associative).  There are no
-  subtractions in the estimator.  `int` quantities (layer counts, `opts.NumGPU`) never leave
+  reduction modulo 2^64, in the order Go evaluates it (left-associative).  The only
+  subtraction is `FreeMemory-overhead` of the repaired variant (`subW`).  `int` quantities (layer counts, `opts.NumGPU`) never leave
   the range where `Nat`/`Int` arithmetic is exact.
 
   Core Lean only (compiled into the oracle).
@@ -464,5 +464,85 @@ def adjust (p : Nat) (g : SGpu) : Nat :=
 def updateFree (gpus : List SGpu) (runners : List Runner) : List Nat :=
   if runners.any (·.isSome) then gpus.map (fun g => adjust (predOf gpus runners g.key) g)
   else gpus.map (·.free)
+
+/-! ### the scheduler's load path (server/sched.go `processPending`, GPU branch)
+
+What `processPending` does with a pending request whose model is not loaded, below
+`OLLAMA_MAX_LOADED_MODELS`, on a GPU inventory (not the single-"cpu" list): the glue between
+`filterGPUsWithoutLoadingModels`, `updateFreeSpace` and the two pick functions. -/
+
+/-- one GPU of the refreshed inventory (`s.getGpuFn()`) -/
+structure IGpu where
+  f : FGpu        -- Library[_Variant] class, ID class, library, reported free / minimum memory
+  lkey : Nat      -- class of (Library, ID): the key of `updateFreeSpace`'s `predMap`
+  total : Nat     -- TotalMemory
+  deriving Repr
+
+/-- a loaded runner as the load path reads it: `runner.loading`, the IDs of `runner.gpus` (recorded at
+    provisioning) and the per-GPU sizes of its estimate (`EstimatedVRAMByGPU(id) = vramByGPU ids sizes id`) -/
+structure LRunner where
+  loading : Bool
+  ids : List Nat
+  sizes : List Nat
+  deriving Repr
+
+/-- `for i := range ret { if ret[i].ID == busyGPU.ID { ret = append(ret[:i], ret[i+1:]...); break } }` -/
+def removeFirstId (id : Nat) : List IGpu → List IGpu
+  | [] => []
+  | g :: rest => if g.f.idk == id then rest else g :: removeFirstId id rest
+
+def removeIds : List Nat → List IGpu → List IGpu
+  | [], l => l
+  | id :: ids, l => removeIds ids (removeFirstId id l)
+
+/-- `filterGPUsWithoutLoadingModels`: for every runner that is still loading, every GPU it was
+    provisioned on is removed (first entry with that ID).  Go iterates the `loaded` map in random
+    order; removals of first-matches by ID commute, so any order gives this list. -/
+def filterLoading : List LRunner → List IGpu → List IGpu
+  | [], l => l
+  | r :: rs, l => filterLoading rs (if r.loading then removeIds r.ids l else l)
+
+def IGpu.toS (g : IGpu) : SGpu := ⟨g.lkey, g.f.idk, g.total, g.f.gpu.free⟩
+
+def IGpu.withFree (g : IGpu) (fr : Nat) : IGpu :=
+  { g with f := { g.f with gpu := { g.f.gpu with free := fr } } }
+
+/-- the runner's `EstimatedVRAMByGPU` as the association list `updateFree` reads -/
+def LRunner.toR (r : LRunner) : Runner := some (r.ids.zip r.sizes)
+
+/-- `availGpus` after `filterGPUsWithoutLoadingModels` and `updateFreeSpace` -/
+def adjInv (inv : List IGpu) (runners : List LRunner) : List IGpu :=
+  let avail := filterLoading runners inv
+  List.zipWith IGpu.withFree avail (updateFree (avail.map IGpu.toS) (runners.map LRunner.toR))
+
+/-- `numParallel` as `processPending` hands it to the pick functions: `OLLAMA_NUM_PARALLEL`, forced
+    to 1 for the mllama family and for models without the completion capability (embedding models) -/
+def effParallel (np : Int) (mllama embed : Bool) : Int :=
+  let np1 := if mllama && np != 1 then 1 else np
+  if embed then 1 else np1
+
+inductive Decision
+  | load (full : Bool) (l : List FGpu) (p : Nat)   -- `s.loadFn(pending, ggml, l, p)`
+  | evict                                          -- `findRunnerToUnload`, wait for the unload, retry
+  | delay                                          -- other models still loading: requeue
+  deriving Repr
+
+/-- The GPU branch of `processPending` for a model that is not loaded.  No runner loaded: best full
+    fit on the reported inventory, else the best *partial* fit ("only allow partial loads when this is
+    the first model").  Otherwise: filter out GPUs with loading models, lower the free figures by the
+    predictions, and load only on a full fit; no fit ⇒ requeue if some GPU was filtered out, else evict. -/
+def loadDecision (commonOf : Nat → Inp) (np : Int) (dp : Nat) (spread : Bool)
+    (inv : List IGpu) (runners : List LRunner) : Decision :=
+  if runners.isEmpty then
+    match pickFull commonOf np dp spread (inv.map (·.f)) with
+    | some (l, p) => .load true l p
+    | none =>
+      let pp := if np ≤ 0 then 1 else np.toNat
+      .load false (pickPartial (commonOf pp) (inv.map (·.f))) pp
+  else
+    let adj := adjInv inv runners
+    match pickFull commonOf np dp spread (adj.map (·.f)) with
+    | some (l, p) => .load true l p
+    | none => if adj.length < inv.length then .delay else .evict
 
 end OllamaVerif.Memory
